@@ -67,6 +67,8 @@ func main() {
 		childMode()
 	case "run":
 		runMode()
+	case "iso":
+		isoMode()
 	default:
 		fmt.Fprintln(os.Stderr, "unknown mode")
 		os.Exit(2)
